@@ -2074,6 +2074,11 @@ impl<'a> Monitor<'a>
             TEv::Quiescent{ snap, live } => self.on_quiescent(snap, live),
             TEv::Value{ what, .. } =>
             {
+                if let Some(which) = what.strip_prefix("reader-api-inconsistent:")
+                {
+                    self.viol("C03", "R-data", format!("reader-api-inconsistent:{which}"),
+                        format!("the accessor forms of {which} disagree (is_empty / entity / read vs try_read / get)"));
+                }
                 if what == "teardown"
                 {
                     self.teardown = true;
